@@ -17,6 +17,10 @@ def in_parser(f):
     return any(f.file.endswith(x) for x in PARSER_FILES)
 
 
+def natural_or_none(g):
+    return bool(cfg.natural_loops(g))
+
+
 def run(ck):
     prog = ck.prog
     ck.rule("C03-R1", "G bounded-buffer taint",
@@ -239,6 +243,59 @@ def run(ck):
                   "an iteration of the loop at line %s can return to its head (from block %s) without moving the cursor: the same byte is examined "
                   "forever and the worker thread never comes back" % ((hb.term or {}).get("l"), stuck[0]))
     ck.require(nlp >= 6, "cursor-driven loops found: %d" % nlp)
+
+    # ---------------- R8: strict progress (definite consumption, facts about the current byte) ----------------
+    ck.rule("C03-R8", "C path automaton with byte facts (strict loop progress)",
+            "in the functions listed (every cursor-driven parser loop that is provably strict today) no iteration can come back to the "
+            "loop condition, be admitted again and re-enter the body unless a call on the way *definitely* consumed input: "
+            "StreamCursor::advance, a helper all of whose paths advance (matchValue), or the true arm of a bool helper whose every "
+            "non-false return advanced (match_literal, match_raw, match_string, match_attribute).  Calls that only may consume "
+            "(match_until, skip_whitespaces, Chunk::parse) do not count; they reset what is known about the byte under the cursor, "
+            "which is otherwise tracked through comparisons with character constants, eof() tests and the post-condition of "
+            "match_until(set) == true", 16)
+    STRICT_FUNCS = {
+        H + "Private::RequestLineStep::apply", H + "Private::ResponseLineStep::apply", H + "Private::HeadersStep::apply",
+        H + "Private::BodyStep::Chunk::parse", H + "Cookie::fromRaw", H + "CookieJar::addFromRaw", H + "Header::CacheControl::parseRaw",
+        H + "Header::Accept::parseRaw", H + "Mime::MediaType::parseRaw", "Pistache::match_until", "Pistache::skip_whitespaces"}
+    # named exemptions (reason each): loops whose progress argument is about values this analysis does not track
+    R8_EXEMPT = {
+        (H + "Header::CacheControl::parseRaw", "do"): "do-while: progress follows from current() == ',' after the directive (value reasoning, see R7)",
+    }
+    # post-condition the analysis assumes of match_until: its only `return true` is taken when find(cursor.current()) held
+    mus = [g for g in prog.by_base.get("Pistache::match_until", []) if g.blocks and any(True for _ in g.events("return")) and natural_or_none(g)]
+    ck.require(len(mus) == 1, "the match_until overload that scans (has a loop): %d found" % len(mus))
+    mu = mus[0]
+    rts = [e for e in mu.events("return") if e.get("const") is True]
+    guards = [bl for bl in mu.blocks.values() if bl.term and bl.term.get("k") == "if" and ((bl.term.get("core") or {}).get("t") or "").startswith("find(")]
+    cur_decl = {d["var"] for d in mu.events("decl") if d.get("icall") == CUR + "current"}
+    ok = bool(rts) and bool(guards) and all(any(cfg.edge_dominates(mu, g.id, 1 if g.term.get("neg") else 0, e) for g in guards) for e in rts) and \
+        all(any(("v:" + v) in (g.term.get("refs") or []) for v in cur_decl) for g in guards)
+    ck.ob("C03-R8", "match_until/post-condition", ok, mu.loc, mu, "`return true` only under find(<byte under the cursor>): on success the cursor stands on one of the characters asked for")
+    sp = lib.StrictProgress(prog, CUR, READERS)
+    for f in prog.funcs.values():
+        if not in_parser(f) or f.base.startswith(CUR) or not lib.cursors_of(f) or not f.blocks:
+            continue
+        for hdr, body in cfg.natural_loops(f):
+            hb = f.blocks[hdr]
+            conds = [f.blocks[b].term for b in body if f.blocks[b].term]
+            if not any(any(("c:" + r_) in (t.get("refs") or []) for r_ in READERS) for t in conds):
+                continue
+            back_kinds = {(f.blocks[b].term or {}).get("k") for b in body if (f.blocks[b].term or {}).get("k") == "do" and
+                          len(f.blocks[b].succs) == 2 and f.blocks[b].succs[1] not in body}
+            line = (hb.term or {}).get("l") or min([e.get("l") for b in body for e in f.blocks[b].elems if e.get("l")] or [0])
+            if f.base not in STRICT_FUNCS:
+                ck.note("C03-R8: loop at %s:%s is in a function that is not in the confirmed list: only the lenient rule R7 applies" % (f.file, line))
+                continue
+            ex = R8_EXEMPT.get((f.base, "do")) if "do" in back_kinds else None
+            if ex:
+                ck.note("C03-R8: %s do-while exempt: %s" % (f.base, ex))
+                continue
+            stuck = sp.check(f, hdr, body)
+            ck.ob("C03-R8", "%s/loop@%s" % (f.base.replace("Pistache::", ""), line), not stuck, "%s:%s" % (f.file, line), f,
+                  "no zero-progress iteration" if not stuck else
+                  "an iteration of the loop at line %s can come back to the loop condition, be admitted again and reach line %s without any call "
+                  "that definitely consumed input: on that input the same bytes are examined forever (and whatever the body appends grows without bound)"
+                  % (line, stuck[0][1]))
 
     # a size taken from the message is checked for its sign before it is stored (a negative size turns into a huge unsigned count)
     cp = lib.single(prog, H + "Private::BodyStep::Chunk::parse")
